@@ -364,6 +364,22 @@ def dictSet (d k v : OVal V) : M V (OVal V) :=
   | .dict kvs => do pure (.dict (← setKey k v kvs))
   | _ => throw (.unmodelled "item assignment on a non-dict")
 
+/-- `dict(d)`: a copy -/
+def dictCopy (d : OVal V) : M V (OVal V) :=
+  match d with
+  | .dict kvs => pure (.dict kvs)
+  | _ => throw (.unmodelled "dict() of a non-dict")
+
+def updKeys : List (OVal V × OVal V) → List (OVal V × OVal V) → M V (List (OVal V × OVal V))
+  | acc, [] => pure acc
+  | acc, (k, v) :: rest => do updKeys (← setKey k v acc) rest
+
+/-- `d.update(other)`: the new dict (keys of `d` keep their place, new keys are appended in `other`'s order) -/
+def dictUpdate (d other : OVal V) : M V (OVal V) :=
+  match d, other with
+  | .dict kvs, .dict more => do pure (.dict (← updKeys kvs more))
+  | _, _ => throw (.unmodelled ".update on a non-dict")
+
 /-- `d.clear()`: the new (empty) dict -/
 def dictClear (d : OVal V) : M V (OVal V) :=
   match d with
